@@ -291,7 +291,7 @@ def run(ctx):
     small = [c for c in cases if len(c["server"]["refs"]) <= full]
     big = [c for c in cases if len(c["server"]["refs"]) > full]
     ctx.rng.shuffle(big)
-    chosen = small + big[: (900 if ctx.thorough else 14)]
+    chosen = small + big[: (500 if ctx.thorough else 14)]
     ctx.cov["exhaustive"] = True
     ctx.cov["servers_enumerated"] = len(cases)
     ctx.cov["servers_executed"] = len(chosen)
@@ -313,7 +313,7 @@ def replay(ctx, rec):
     binary = ctx.build("vh-c30")
     tmpl, params, ids = template(ctx)
     c = rec["case"]
-    cases = [x for x in ctx.tlc_gen("proto", "Advert_Gen", consts={"MaxRefs": 4}, env={"PARAMS": params}, workers=6)
+    cases = [x for x in ctx.tlc_gen("proto", "Advert_Gen", consts={"MaxRefs": len(c["server"]["refs"])}, env={"PARAMS": params}, workers=6)
              if describe(x["server"]) == describe(c["server"])]
     if not cases:
         raise ToolError("replay: server not in the generator's space")
